@@ -59,15 +59,16 @@ def run(ctx):
     Gate = _gate_classes(repo)
 
     # ---------------------------------------------------------------- writer
-    wstart = chains.longest_chain(wfn, lambda t: chains.isinstance_classes(t, 'gate') is not None)
+    wstart = chains.longest_chain(wfn, lambda t: chains.isinstance_classes(t) is not None)
     if wstart is None:
-        raise AnalysisError('_serialize_gate_op: isinstance chain on `gate` vanished')
+        raise AnalysisError('_serialize_gate_op: isinstance chain over the gate classes vanished')
+    GATE = chains.test_subject(wstart.test)        # the local holding op.gate, whatever it is called
     wbranches = []
     for test, body in chains.if_chain(wstart):
         if test is None:
             wbranches.append((None, [], body))
             continue
-        cls_nodes = chains.isinstance_classes(test, 'gate')
+        cls_nodes = chains.isinstance_classes(test, GATE)
         if cls_nodes is None:
             raise AnalysisError(f'_serialize_gate_op: unrecognised branch test `{ast.unparse(test)}`')
         classes = []
@@ -80,16 +81,17 @@ def run(ctx):
         wbranches.append((test, classes, body))
 
     # ---------------------------------------------------------------- reader
-    rstart = chains.longest_chain(rfn, lambda t: chains.eq_const(t, 'which_gate_type') is not None)
+    rstart = chains.longest_chain(rfn, lambda t: chains.eq_const(t) is not None)
     if rstart is None:
-        raise AnalysisError('_deserialize_gate_op: chain on which_gate_type vanished')
+        raise AnalysisError('_deserialize_gate_op: chain over the oneof kind vanished')
+    WHICH = chains.test_subject(rstart.test)
     rbranches = {}
     r_else = None
     for test, body in chains.if_chain(rstart):
         if test is None:
             r_else = body
             continue
-        k = chains.eq_const(test, 'which_gate_type')
+        k = chains.eq_const(test, WHICH)
         if k is None:
             raise AnalysisError(f'_deserialize_gate_op: unrecognised branch test `{ast.unparse(test)}`')
         rbranches[k] = (test, body)
@@ -127,7 +129,7 @@ def run(ctx):
             ok = _path_in_schema(msgs, sub_msg, sp)
             ctx.ob('C16.a', f'writer:{cname}:{kind}.{".".join(sp)}:in-schema', ok,
                    '' if ok else f'sub-field `{".".join(sp)}` is not a field of message {sub_msg.name if sub_msg else "?"}', m.rel, line)
-        pairs_w.setdefault(kind, {}).update(_writer_pairs(body, kind))
+        pairs_w.setdefault(kind, {}).update(_writer_pairs(body, kind, GATE))
         # sub-fields read back
         if kind in rbranches:
             rpaths = []
@@ -209,10 +211,10 @@ def run(ctx):
         reads = set()
         for st in body:
             for n in ast.walk(st):
-                if isinstance(n, ast.Attribute) and isinstance(n.value, ast.Name) and n.value.id in ('gate', 'op'):
+                if isinstance(n, ast.Attribute) and isinstance(n.value, ast.Name) and n.value.id in (GATE, 'op'):
                     reads.add(n.attr)
             for c in ast.walk(st):
-                if isinstance(c, ast.Call) and any(isinstance(a, ast.Name) and a.id == 'gate' for a in c.args):
+                if isinstance(c, ast.Call) and any(isinstance(a, ast.Name) and a.id == GATE for a in c.args):
                     reads.add('<whole>')
         for c in classes:
             if c.name == 'InternalGate':
@@ -308,7 +310,7 @@ def _path_in_schema(msgs, msg, sp):
     return True
 
 
-def _writer_pairs(body, kind):
+def _writer_pairs(body, kind, GATE='gate'):
     """{subfield path -> gate attribute} from `f(gate.a..., out=msg.kind.s)` / `msg.kind.s = gate.a` / `.extend(gate.a)`."""
     out = {}
     for st in body:
@@ -331,7 +333,7 @@ def _writer_pairs(body, kind):
             if not tp or tp[0][0][0] != kind:
                 continue
             sp = tuple(x for x in tp[0][0][1:])
-            attrs = [a.attr for a in ast.walk(src) if isinstance(a, ast.Attribute) and isinstance(a.value, ast.Name) and a.value.id == 'gate']
+            attrs = [a.attr for a in ast.walk(src) if isinstance(a, ast.Attribute) and isinstance(a.value, ast.Name) and a.value.id == GATE]
             if len(attrs) == 1 and sp:
                 out[sp] = attrs[0]
     return out
@@ -445,14 +447,14 @@ def _tags(ctx, repo, m, ci, msgs):
     kinds = tag_msg.oneofs.get('tag', []) if tag_msg else []
     if not kinds:
         raise AnalysisError('program.proto: Tag.tag oneof vanished')
-    rstart = chains.longest_chain(rfn, lambda t: chains.eq_const(t, 'which') is not None)
+    rstart = chains.longest_chain(rfn, lambda t: chains.eq_const(t) is not None)
     if rstart is None:
         raise AnalysisError('_deserialize_tag: chain on `which` vanished')
     rk = {}
     for test, body in chains.if_chain(rstart):
         if test is None:
             continue
-        k = chains.eq_const(test, 'which')
+        k = chains.eq_const(test)
         built = set()
         for st in body:
             for c in ast.walk(st):
@@ -765,7 +767,7 @@ def _sweeps(ctx, repo):
         ok = wmap.get(c) == rmap.get(c)
         ctx.ob('C16.c.sweeps', f'sweep-func-class:{c}', ok, '' if ok else f'{c}: writer uses {wmap.get(c)}, reader uses {rmap.get(c)}', m.rel, w.lineno)
     # written sub-fields in schema
-    for var in ('out', 'msg'):
+    for var in _proto_vars(w):
         for p, node in chains.attr_paths(w, var):
             if not p:
                 continue
@@ -776,6 +778,23 @@ def _sweeps(ctx, repo):
 
 
 # --------------------------------------------------------------------- args
+def _proto_vars(fn):
+    """names that stand for the proto message being filled in: the out/msg parameters and locals bound from them (`msg = X() if out is None else out`)"""
+    params = {a.arg for a in fn.args.args + fn.args.kwonlyargs}
+    vs = {'out', 'msg'} & params
+    if not vs:
+        vs = {'out', 'msg'}
+    grew = True
+    while grew:
+        grew = False
+        for n in ast.walk(fn):
+            if isinstance(n, ast.Assign) and len(n.targets) == 1 and isinstance(n.targets[0], ast.Name) and n.targets[0].id not in vs:
+                if any(isinstance(x, ast.Name) and x.id in vs for x in ast.walk(n.value)) and not isinstance(n.value, ast.Call):
+                    vs.add(n.targets[0].id)
+                    grew = True
+    return sorted(vs)
+
+
 def _args(ctx, repo):
     ctx.rule('C16.c.args', 'arg function language: the operator tables used by the writer and by the reader contain the same operator '
              'symbols; every arg kind written by arg_to_proto is read by arg_from_proto', floor=6, style='WR')
@@ -790,7 +809,7 @@ def _args(ctx, repo):
     argv = msgs.get('ArgValue')
     wk = set()
     for fn in [w] + [f for n, f in m.defs.items() if isinstance(f, ast.FunctionDef) and n.endswith('_to_proto') and n != 'arg_to_proto']:
-        for var in ('msg', 'out'):
+        for var in _proto_vars(fn):
             for p, node in chains.attr_paths(fn, var):
                 if p and p[0] in arg.fields:
                     wk.add(p[0])
